@@ -44,7 +44,7 @@ IsTrace == cfg.fam = "trace"
 (* cfg = [fam, N, ch, mode, k, sw, pa]: ch[i] = which members level i declares, mode = how bodies *)
 (* are chained, k = the level whose <%inherit> is an expression (0: none), sw = what it selects.  *)
 If(c, s) == IF c THEN s ELSE <<>>
-DecoyCh == [f |-> TRUE, a |-> TRUE, b |-> TRUE, c |-> "none"]
+DecoyCh == [f |-> TRUE, a |-> "truthy", b |-> TRUE, c |-> "none"]
 StdCh(i) == IF i = cfg.N + 1 THEN DecoyCh ELSE cfg.ch[i]
 StdInh(i) == IF i = cfg.N + 1 \/ (i = 1 /\ cfg.k # 1) THEN "none" ELSE IF i = cfg.k THEN "dyn" ELSE "static"
 StdHn(i) == i # cfg.N
@@ -53,7 +53,7 @@ StdFlags(i) == LET ch == StdCh(i) IN
    p1 |-> IF StdInh(i) = "none" THEN NONE ELSE i - 1, p2 |-> IF StdInh(i) = "dyn" THEN cfg.N + 1 ELSE NONE]
 (* the body script of a family exercises the members that family varies *)
 StdBody(t, hp, hn, mode, fam) ==
-  LET wf == fam \in {"dispatch", "dyn"}  wa == fam = "dispatch" IN
+  LET wf == fam \in {"dispatch", "dyn"}  wa == fam = "attrs" IN
   <<Op("open", "", "")>>
   \o If(wf, <<Op("call", "self", "f")>>)
   \o If(wf /\ hn, <<Op("call", "next", "f")>>)
@@ -90,12 +90,14 @@ Target(i) == CASE T(i).inh = "none" -> NONE
                [] T(i).inh = "dyn" -> IF cfg.sw THEN T(i).p1 ELSE T(i).p2
 
 Choices(fam) ==
-  CASE fam = "dispatch" -> [f : BOOLEAN, a : BOOLEAN, b : {FALSE}, c : {"none"}]
-    [] fam = "blocks" -> {ch \in [f : {FALSE}, a : {FALSE}, b : BOOLEAN, c : {"none", "top", "inb"}] : ch.c = "inb" => ch.b}
-    [] fam = "args" -> [f : {FALSE}, a : {FALSE}, b : BOOLEAN, c : {"none"}]
-    [] fam = "dyn" -> [f : BOOLEAN, a : {FALSE}, b : BOOLEAN, c : {"none"}]
+  CASE fam = "dispatch" -> [f : BOOLEAN, a : {"none"}, b : {FALSE}, c : {"none"}]
+    \* module attribute a: not defined / defined with a falsy value / defined with a truthy value (values distinct per level)
+    [] fam = "attrs" -> [f : {FALSE}, a : {"none", "falsy", "truthy"}, b : {FALSE}, c : {"none"}]
+    [] fam = "blocks" -> {ch \in [f : {FALSE}, a : {"none"}, b : BOOLEAN, c : {"none", "top", "inb"}] : ch.c = "inb" => ch.b}
+    [] fam = "args" -> [f : {FALSE}, a : {"none"}, b : BOOLEAN, c : {"none"}]
+    [] fam = "dyn" -> [f : BOOLEAN, a : {"none"}, b : BOOLEAN, c : {"none"}]
 Modes(fam) == CASE fam = "blocks" -> {"next", "self", "none"} [] fam = "args" -> {"next", "self"} [] OTHER -> {"next"}
-Families == {"dispatch", "blocks", "args", "dyn"}
+Families == {"dispatch", "attrs", "blocks", "args", "dyn"}
 Configs ==
   UNION {UNION {UNION {
      {[fam |-> fam, N |-> N, ch |-> ch, mode |-> mode, k |-> ks[1], sw |-> ks[2], pa |-> (fam = "args")] :
@@ -138,7 +140,7 @@ RunBodyOfBase ==
 (* ------------------------------------------------------------------ member resolution *)
 Declares(i, name) ==
   CASE name = "f" -> T(i).f [] name = "b" -> T(i).b [] name = "c" -> T(i).c # "none"
-    [] name = "a" -> T(i).a [] name = "body" -> TRUE [] OTHER -> FALSE
+    [] name = "a" -> T(i).a # "none" [] name = "body" -> TRUE [] OTHER -> FALSE
 RECURSIVE NsLookup(_, _)
 NsLookup(n, name) == IF n = NONE THEN NONE ELSE IF Declares(n, name) THEN n ELSE NsLookup(inh[n], name)
 RECURSIVE NsPath(_, _)
@@ -159,6 +161,8 @@ Script(fr) == ScriptOf(fr.tpl, fr.kind)
 Adv == [stack EXCEPT ![Len(stack)].pc = Top.pc + 1]
 Push(fr) == Append(Adv, fr)
 Ev(via, from, name, got) == [via |-> via, from |-> from, name |-> name, got |-> got]
+(* the value of attribute a as defined by template r: (level, truthiness) -- printed as val||level|1 or val||level|0 *)
+Truthy(r) == IF r # NONE /\ T(r).a = "truthy" THEN 1 ELSE 0
 Step ==
   /\ phase = "run" /\ stack # <<>>
   /\ LET fr == Top  i == fr.tpl  c == ctx[i] IN
@@ -182,7 +186,7 @@ Step ==
          [] o.op = "attr" ->     \* ${ns.attr.a}: _NSAttr walks module, then inherits; no memo
               LET t == c[o.via]  r == NsLookup(t, o.name) IN
               /\ hist' = Append(hist, Ev(o.via, i, o.name, r))
-              /\ out' = out \o <<Tok("attr", o.via, i, 0), IF r = NONE THEN Tok("ERR", "", 0, 0) ELSE Tok("val", "", r, 0)>>
+              /\ out' = out \o <<Tok("attr", o.via, i, 0), IF r = NONE THEN Tok("ERR", "", 0, 0) ELSE Tok("val", "", r, Truthy(r))>>
               /\ stack' = Adv /\ UNCHANGED memo
          [] o.op = "here" ->     \* <%block name=...> at this position (codegen.visitBlockTag)
               IF c.parent = NONE \/ MLookup(c.parent, o.name) = NONE
@@ -232,6 +236,17 @@ NextParentAdjacent_ ==
 LocalIsOwn_ ==
   /\ Linked => \A i \in Ids : InChain(i) => ctx[i].local = i
   /\ \A e \in H : e.via = "local" => e.got = NearestFrom(Pos(e.from), e.name)
+(* stated on the VALUE that is printed: the attr token of template i via `via` is followed by the value (level, truthiness) *)
+(* defined by the template that must answer -- a falsy value is a definition like any other                              *)
+AttrAnswer(via, i) ==
+  CASE via = "self" -> NearestFrom(Len(Chain), "a")
+    [] via = "local" -> NearestFrom(Pos(i), "a")
+    [] via = "next" -> IF Pos(i) < Len(Chain) THEN NearestFrom(Pos(i) + 1, "a") ELSE NONE
+    [] via = "parent" -> IF Pos(i) > 1 THEN NearestFrom(Pos(i) - 1, "a") ELSE NONE
+AttrValues_ ==
+  \A k \in 1..Len(out) : (out[k].k = "attr" /\ InChain(out[k].l)) =>
+     LET r == AttrAnswer(out[k].n, out[k].l) IN
+     out[k + 1] = (IF r = NONE THEN Tok("ERR", "", 0, 0) ELSE Tok("val", "", r, IF T(r).a = "truthy" THEN 1 ELSE 0))
 BaseBodyRuns_ == (Linked /\ out # <<>>) => out[1] = Tok("open", "", Chain[1], -1)
 MemoSound_ == \A m \in memo : NsLookup(m.ns, m.name) = m.got
 (* named blocks *)
@@ -247,7 +262,7 @@ BlockOnce_ ==
                                   /\ hist[k].got = NearestFrom(Len(Chain), name)  \* with the most-derived definition
     /\ (phase = "done" /\ Declaring(name) # {} /\ TopLevelHere(BaseMost(name), name))
           => Cardinality(HereEvents(name)) = NBodyRuns(BaseMost(name))           \* once per run of that body
-    /\ (phase = "done" /\ cfg.fam \in {"dispatch", "blocks", "args", "dyn"}) => Cardinality(HereEvents(name)) <= 1
+    /\ (phase = "done" /\ cfg.fam \in Families) => Cardinality(HereEvents(name)) <= 1
 AnonInPlace_ ==
   /\ \A e \in H : e.via = "anon" => e.got = e.from       \* rendered by the body it is written in
   /\ phase = "done" => \A i \in Ids :
@@ -266,6 +281,7 @@ SelfMostDerived == AtEnd(SelfMostDerived_)
 NextParentAdjacent == AtEnd(NextParentAdjacent_)
 LocalIsOwn == AtEnd(LocalIsOwn_)
 BaseBodyRuns == AtEnd(BaseBodyRuns_)
+AttrValues == AtEnd(AttrValues_)
 MemoSound == AtEnd(MemoSound_)
 BlockOnce == AtEnd(BlockOnce_)
 AnonInPlace == AtEnd(AnonInPlace_)
